@@ -12,6 +12,7 @@ b3 = np.array([0.5, -1.0, 0.0])
 
 
 EXP_ATOMS = ['exp', 'log', 'pexp', 'plog', 'softplus', 'entropy', 'expsum', 'sumexp', 'sumlog']
+EXP_FAMILY = EXP_ATOMS + ['kldiv', 'expcone']      # members decided under the cone-term abstraction
 
 
 def exp_desc(a, atom, form):
@@ -150,6 +151,10 @@ def core_specs():
         for form in ['bcast_var', 'bcast_const', 'bcast_scaled']:
             S.append(dict(name='%s-%s' % (atom, form), atom='bcast', base=atom, form=form))
     S.append(dict(name='rsocone', atom='rsocone', form='cons'))
+    for form in ['const_r', 'var_r', 'scalar_q', 'affine_p']:
+        S.append(dict(name='kldiv-' + form, atom='kldiv', form=form))
+    for form in ['vars', 'affine', 'const_z']:
+        S.append(dict(name='expcone-' + form, atom='expcone', form=form))
     S.append(dict(name='multi-atom', atom='multi', form='cons'))
     S.append(dict(name='int-abs', atom='intabs', form='cons'))
     return S
@@ -310,6 +315,44 @@ def desc_from_spec(spec):
             a.st(a.le(x, 3.0))
             a.st(a.rsocone(x, y, z))
             a.min(y + z - a.sum(np.array([1.0, 0.5]) * x))
+        elif atom == 'kldiv':
+            p = a.dvar(3)
+            r = a.dvar(())
+            a.st(a.eq(a.sum(p), 1.0))
+            a.st(a.ge(p, 0.0))
+            a.st(a.le(r, 2.0))
+            a.st(a.ge(r, 0.0))
+            q = np.array([0.25, 0.25, 0.5])
+            c = np.array([1.0, -0.5, 0.25])
+            if form == 'const_r':
+                a.st(a.kldiv(p, q, 0.125))
+                a.min(a.sum(c * p))
+            elif form == 'var_r':
+                a.st(a.kldiv(p, q, r))
+                a.min(a.sum(c * p) + 0.5 * r)
+            elif form == 'scalar_q':
+                a.st(a.kldiv(p, 0.5, r + 0.25))
+                a.min(a.sum(c * p) + r)
+            else:
+                a.st(a.kldiv(2.0 * p[0:2] + 0.5 * p[2:3], q[0:2], r))
+                a.min(a.sum(c * p) + 0.5 * r)
+        elif atom == 'expcone':
+            x = a.dvar(())
+            y = a.dvar(())
+            z = a.dvar(())
+            for v in (x, y, z):
+                a.st(a.ge(v, -2.0))
+                a.st(a.le(v, 3.0))
+            if form == 'vars':
+                a.st(a.expcone(y, x, z))
+                a.st(a.ge(z, 0.5))
+                a.min(y - x + 0.25 * z)
+            elif form == 'affine':
+                a.st(a.expcone(2.0 * y - x + 1.0, x + z, 0.5 * z + 1.0))
+                a.min(y - 0.5 * x)
+            else:
+                a.st(a.expcone(y, x - z, 2.0))
+                a.min(y - x + z)
         elif atom == 'multi':
             x = a.dvar(3)
             u = a.dvar(())
